@@ -17,14 +17,14 @@ pub struct CheckDef {
 }
 
 pub const CHECKS: &[CheckDef] = &[
-    CheckDef { id: "C01", quick_runs: 12000, thorough_runs: 100000, level: "exploration", title: "every interleaving outcome is explored" },
-    CheckDef { id: "C02", quick_runs: 3000, thorough_runs: 30000, level: "exploration", title: "every RC11-allowed outcome without load buffering is explored" },
-    CheckDef { id: "C03", quick_runs: 3000, thorough_runs: 30000, level: "exploration", title: "every explored execution is RC11-consistent" },
-    CheckDef { id: "C04", quick_runs: 6000, thorough_runs: 60000, level: "exploration", title: "data races are reported exactly" },
+    CheckDef { id: "C01", quick_runs: 12000, thorough_runs: 50000, level: "exploration", title: "every interleaving outcome is explored" },
+    CheckDef { id: "C02", quick_runs: 3000, thorough_runs: 20000, level: "exploration", title: "every RC11-allowed outcome without load buffering is explored" },
+    CheckDef { id: "C03", quick_runs: 3000, thorough_runs: 20000, level: "exploration", title: "every explored execution is RC11-consistent" },
+    CheckDef { id: "C04", quick_runs: 6000, thorough_runs: 30000, level: "exploration", title: "data races are reported exactly" },
     CheckDef { id: "C05", quick_runs: 20000, thorough_runs: 200000, level: "exploration", title: "deadlocks are reported exactly" },
     CheckDef { id: "C06", quick_runs: 1200, thorough_runs: 10000, level: "fault_enumeration", title: "a failure in any execution fails the model, and only then" },
-    CheckDef { id: "C07", quick_runs: 10000, thorough_runs: 100000, level: "exploration", title: "Mutex/RwLock exclusion, blocking, hand-over" },
-    CheckDef { id: "C08", quick_runs: 15000, thorough_runs: 150000, level: "exploration", title: "waiting primitives wake exactly on notification" },
+    CheckDef { id: "C07", quick_runs: 10000, thorough_runs: 40000, level: "exploration", title: "Mutex/RwLock exclusion, blocking, hand-over" },
+    CheckDef { id: "C08", quick_runs: 15000, thorough_runs: 100000, level: "exploration", title: "waiting primitives wake exactly on notification" },
     CheckDef { id: "C09", quick_runs: 15000, thorough_runs: 150000, level: "exploration", title: "mpsc: once, in order, with ordering" },
     CheckDef { id: "C10", quick_runs: 6000, thorough_runs: 60000, level: "exploration", title: "leaks reported exactly" },
     CheckDef { id: "C11", quick_runs: 6000, thorough_runs: 40000, level: "exploration", title: "loom::sync::Arc behaves like std::sync::Arc" },
@@ -32,8 +32,8 @@ pub const CHECKS: &[CheckDef] = &[
     CheckDef { id: "C14", quick_runs: 5000, thorough_runs: 50000, level: "exploration", title: "exploration terminates and never repeats" },
     CheckDef { id: "C16", quick_runs: 1500, thorough_runs: 10000, level: "exploration", title: "iterations and models are isolated" },
     CheckDef { id: "C17", quick_runs: 5000, thorough_runs: 50000, level: "exploration", title: "thread_local! / lazy_static! semantics" },
-    CheckDef { id: "C18", quick_runs: 3000, thorough_runs: 30000, level: "exploration", title: "yielding spin loops progress and lose no exit outcome" },
-    CheckDef { id: "C20", quick_runs: 1500, thorough_runs: 10000, level: "exploration", title: "block_on / AtomicWaker never lose a wake-up" },
+    CheckDef { id: "C18", quick_runs: 3000, thorough_runs: 15000, level: "exploration", title: "yielding spin loops progress and lose no exit outcome" },
+    CheckDef { id: "C20", quick_runs: 1500, thorough_runs: 6000, level: "exploration", title: "block_on / AtomicWaker never lose a wake-up" },
     CheckDef { id: "C19", quick_runs: 1000, thorough_runs: 8000, level: "exploration", title: "exploration controls and limits" },
     CheckDef { id: "C15", quick_runs: 1500, thorough_runs: 12000, level: "exploration", title: "preemption bound is sound and monotone" },
 ];
